@@ -685,6 +685,25 @@ func propC05Refs(c *Ctx) {
 					detail = "the dependency is appended to a local copy of the integration (a range-by-value loop variable): the configuration never sees it"
 					continue
 				}
+				// … on EVERY path on which the check succeeded: with the failing outcomes excluded, the visit is
+				// not left (towards the next visit or a return) without passing the append (a further condition –
+				// "the referenced column is indexed already" – would skip the registration of a second reference)
+				{
+					okT2, okF2 := boolEdges(okv)
+					_ = okT2
+					_, nonNil2 := nilTestEdges(errv)
+					cuts := newCuts().addEdges(okF2).addEdges(nonNil2).addInstr(cd.at)
+					skipped, _ := reach(siteOf(call), func(in ssa.Instruction) bool {
+						if _, isRet := in.(*ssa.Return); isRet {
+							return true
+						}
+						return in == ssa.Instruction(call)
+					}, cuts)
+					if skipped {
+						detail = "after a successful reference check the append to Integration.Dependencies can be skipped (it stands under a further condition)"
+						continue
+					}
+				}
 				good = true
 			}
 		}
